@@ -139,10 +139,11 @@ theorem α_ircReset (cfg : Cfg) (s : St) :
 theorem ref_ircReset (s : St) (h : cfg.realDriver = true) : Moves cfg K (α s) (α (ircReset cfg s)) := by
   rw [α_ircReset]; exact .single (.reset (α s) h)
 
-theorem ref_connectTo (srv : Server) (s : St) (hr : cfg.realDriver = true) : Moves cfg K (α s) (α (connectTo cfg srv s)) := by
+theorem ref_connectTo (srv : Server) (s : St) (hr : cfg.realDriver = true) (hK : K .connPerm = true) :
+    Moves cfg K (α s) (α (connectTo cfg srv s)) := by
   unfold connectTo
   rw [α_event _ _ rfl]
-  have := Move.conn (cfg := cfg) (K := K) (α s) srv.forced hr
+  have := Move.conn (cfg := cfg) (K := K) (α s) srv.forced hr hK
   exact .single (by simpa [isReconnect, α] using this)
 
 theorem ref_applyStsPolicy {s s' : St} {srv srv' : Server} (h : applyStsPolicy s srv = some (srv', s')) :
@@ -157,11 +158,11 @@ theorem ref_applyStsPolicy {s s' : St} {srv srv' : Server} (h : applyStsPolicy s
       · injection h with h; injection h with _ h; subst h; exact .refl _
     · cases h
 
-theorem ref_drvConnect (srv : Option Server) (s : St) (hr : cfg.realDriver = true) :
+theorem ref_drvConnect (srv : Option Server) (s : St) (hr : cfg.realDriver = true) (hK : K .connPerm = true) :
     Moves cfg K (α s) (α (drvConnect cfg srv s)) := by
   unfold drvConnect
   cases srv with
-  | some x => exact ref_connectTo x s hr
+  | some x => exact ref_connectTo x s hr hK
   | none =>
     simp only
     cases h : getNextServer cfg s with
@@ -173,29 +174,34 @@ theorem ref_drvConnect (srv : Option Server) (s : St) (hr : cfg.realDriver = tru
       split at h
       · cases h
       · have h1 := ref_applyStsPolicy (cfg := cfg) (K := K) h
-        exact Moves.trans (Moves.trans (.of_eq rfl) h1) (ref_connectTo x s' hr)
+        exact Moves.trans (Moves.trans (.of_eq rfl) h1) (ref_connectTo x s' hr hK)
 
 theorem α_drvDisconnect (s : St) : α (drvDisconnect s) = α s := by
   unfold drvDisconnect; split
   · rw [α_event _ _ rfl]; simp [isReconnect, α]
   · rfl
 
-theorem ref_realReconnect (w : Bool) (srv : Option Server) (s : St) (h : cfg.realDriver = true) :
-    Moves cfg K (α s) (α (realReconnect cfg w srv s)) := by
+theorem ref_realReconnect (w : Bool) (srv : Option Server) (s : St) (h : cfg.realDriver = true)
+    (hK : w = false → K .connPerm = true) : Moves cfg K (α s) (α (realReconnect cfg w srv s)) := by
   have hr := @ref_ircReset cfg K (drvDisconnect { s with drv := { s.drv with attempt := s.drv.attempt + 1, scheduled := false } }) h
   rw [α_drvDisconnect] at hr
   unfold realReconnect
   cases w
-  · simp only [Bool.false_eq_true, if_false]; exact Moves.trans hr (ref_drvConnect _ _ h)
+  · simp only [Bool.false_eq_true, if_false]; exact Moves.trans hr (ref_drvConnect _ _ h (hK rfl))
   · simp only [if_true]; exact hr
 
-theorem ref_drvReconnect (w : Bool) (srv : Option Server) (s : St) :
+theorem ref_drvReconnectGen (w : Bool) (srv : Option Server) (s : St) (hK : w = false → K .connPerm = true) :
     Moves cfg K (α s) (α (drvReconnect cfg w srv s)) := by
   unfold drvReconnect
   by_cases h : cfg.realDriver = true
   · simp only [h, if_true]
-    exact Moves.trans (ref_event (.reconnect w srv) s rfl) (ref_realReconnect w srv _ h)
+    exact Moves.trans (ref_event (.reconnect w srv) s rfl) (ref_realReconnect w srv _ h hK)
   · simp only [h]; exact ref_event _ s rfl
+
+/-- `driver.reconnect(wait=True, …)`: never opens a socket at once -/
+theorem ref_drvReconnect (w : Bool) (srv : Option Server) (s : St) (hw : w = true := by rfl) :
+    Moves cfg K (α s) (α (drvReconnect cfg w srv s)) :=
+  ref_drvReconnectGen w srv s (fun h => by rw [hw] at h; cases h)
 
 /-! ### CAP END and SASL -/
 
@@ -523,12 +529,12 @@ theorem ref_doPing (args : List Str) (s : St) (hK : K .pong = true) : Ref cfg K 
   · exact .refl _
   · exact ref_sendMsg _ s hK (by simp [Out.kind]) (by simp [Out.kind, Kind.sasl])
 
-theorem ref_doError (args : List Str) (s : St) : Ref cfg K s (doError cfg args s) := by
+theorem ref_doError (args : List Str) (s : St) (hK : K .connPerm = true) : Ref cfg K s (doError cfg args s) := by
   unfold doError
   split
   · exact .refl _
   · split
-    · exact ref_drvReconnect _ _ s
+    · exact ref_drvReconnectGen _ _ s (fun _ => hK)
     · split
       · exact ref_drvReconnect _ _ s
       · exact .refl _
@@ -559,6 +565,7 @@ def handlerKinds : Handler → Kind → Bool
   | .n904to907, k => k = .authMech
   | .n43x, k => k = .nick
   | .ping, k => k = .pong
+  | .error, k => k = .connPerm
   | _, _ => false
 
 theorem ref_runHandler (m : Msg) (s : St) : Ref cfg (handlerKinds (dispatch m)) s (runHandler cfg m s) := by
@@ -578,7 +585,7 @@ theorem ref_runHandler (m : Msg) (s : St) : Ref cfg (handlerKinds (dispatch m)) 
   · exact ref_do376 _
   · exact ref_do43x _ (by decide)
   · exact ref_doPing _ _ (by decide)
-  · exact ref_doError _ _
+  · exact ref_doError _ _ (by decide)
   · exact ref_doNick _ _ _
   · exact .refl _
 
